@@ -101,7 +101,13 @@ package mailbox
 // process - the consumer goroutine. It gives the token back (status idle) and looks again, so mail that
 // arrived while it was finishing is not stranded: when it returns, status is idle and nothing it may process is
 // left. And it does not spin: every trip round the retry loop hands over at least one envelope.
+// No lost wake-up: a producer that finds the token taken relies on the consumer looking at the counters AFTER it has
+// given the token back (producer: count, then try the token; consumer: give the token back, then count). So every
+// read of the counters / the pause flag that process itself makes (to decide whether it may stop) happens while the
+// status is idle - a version that reads first and stores idle afterwards strands mail that arrives in between.
 //@ func (*UnboundedMailbox).process
+//@   callspec LoadInt32 requires m.status == 0
+//@   callspec LoadUint32 requires m.status == 0
 //@   requires mbwf(m) && counted(m)
 //@   modifies anyold, gmap(handled), gmap(handledn), m.status
 //@   ensures  mbwf(m) && counted(m) && m.status == 0
